@@ -229,11 +229,15 @@ def relId (r h : Nat) : Nat := if r ≤ h then h - r else 100 + h
 /-- the restart state proper: the root of the rebuilt tree is not the genesis of the instance -/
 def restarted (start tip : Nat) : Bool := rootHeight start tip != start - 1
 
-/-- the blocks whose justify signatures the constructor loads (`tip`, `tip-1`, `tip-2`; `LoadVotes` stores
-nothing for an empty list), each paired with the HEIGHT of the block it is stored for -/
+/-- `smr.LoadVotes(b.GetPreHash(), GetJustifySigns(b))` for the ledger block of height `b`: the signatures are
+stored for the block's PREDECESSOR (paired here with its height); nothing is stored for an empty list, and
+blocks at or below StartHeight carry no signatures -/
+def loadOne (start : Nat) (just : Nat → List Entry) (b : Nat) : List (Nat × List Entry) :=
+  if start < b ∧ (just b).isEmpty = false then [(b - 1, just b)] else []
+
+/-- the certificates the constructor loads in the restart state: those stored in blocks `tip`, `tip-1`, `tip-2` -/
 def loadedCerts (start tip : Nat) (just : Nat → List Entry) : List (Nat × List Entry) :=
-  if restarted start tip then
-    ([tip, tip - 1, tip - 2].filter (fun b => decide (start < b) && !(just b).isEmpty)).map (fun b => (b - 1, just b))
+  if restarted start tip then loadOne start just tip ++ loadOne start just (tip - 1) ++ loadOne start just (tip - 2)
   else []
 
 def restart (self start tip : Nat) (just : Nat → List Entry) : State :=
